@@ -52,6 +52,8 @@ type diffEvent struct {
 	ELoads   int    `json:"eloads"` // distinct names loaded by DiffIter
 	LLoads   int    `json:"lloads"` // distinct names loaded by DiffLinks
 	Counted  bool   `json:"counted"`
+	Stores   string `json:"stores"` // "one" | "two": the new version is opened on a mirror store holding the same nodes under another prefix
+	DCache   bool   `json:"dcache"` // a fresh NodeCache is attached to both trees while they are diffed
 	// large pairs: counts only
 	Big    bool   `json:"big"`
 	ReachO int    `json:"reacho"`
@@ -437,23 +439,67 @@ func diffCase(id int, seed int64, out *json.Encoder, big bool) {
 	}
 	bothPersisted := (oldS == nil || oldS.root != nil) && newS.root != nil && ev.Resid == "pp"
 
+	ev.Stores = "one"
+	var mirror *recStore
+	if bothPersisted {
+		if rng.Intn(3) == 0 {
+			// a replica: the same nodes in another store; the old version is read from the original, the new one from the replica
+			ev.Stores = "two"
+			mirror = newRecStore(r.st.prefix + "-mirror")
+			for n, b := range r.st.m {
+				mirror.m[n] = b
+			}
+		}
+		ev.DCache = rng.Intn(4) == 0
+	}
 	reopenBoth := func() (*mast.Mast, *mast.Mast) {
 		if !bothPersisted {
 			return newS.m, om
 		}
+		var cache mast.NodeCache
+		if ev.DCache {
+			cache = mast.NewNodeCache(4096)
+		}
+		open := func(s *diffSide, st *recStore) *mast.Mast {
+			c := r.rcfg()
+			c.StoreImmutablePartsWith = st
+			c.NodeCache = cache
+			m, err := s.root.LoadMast(ctx, c)
+			if err != nil {
+				panic(err)
+			}
+			return m
+		}
 		var o2 *mast.Mast
 		if oldS != nil {
-			o2 = r.reopen(oldS)
+			o2 = open(oldS, r.st)
 		}
-		return r.reopen(newS), o2
+		nst := r.st
+		if mirror != nil {
+			nst = mirror
+		}
+		return open(newS, nst), o2
+	}
+	beginAll := func() {
+		r.st.begin()
+		if mirror != nil {
+			mirror.begin()
+		}
+	}
+	endAll := func() []storeEvent {
+		sev := r.st.end()
+		if mirror != nil {
+			sev = append(sev, mirror.end()...)
+		}
+		return sev
 	}
 
 	// ---- entry diff through the callback interface (with load accounting when persisted)
 	nm, o2 := reopenBoth()
-	r.st.begin()
+	beginAll()
 	var msg string
 	ev.Cb, ev.CbRes, msg = r.entryDiff(nm, o2, 0, 0)
-	sev := r.st.end()
+	sev := endAll()
 	_, ev.ELoads = distinctLoads(sev)
 	ev.Counted = bothPersisted
 	ev.Msg = msg
@@ -483,9 +529,9 @@ func diffCase(id int, seed int64, out *json.Encoder, big bool) {
 	// ---- node diff (persisted pairs)
 	if bothPersisted {
 		nm, o2 = reopenBoth()
-		r.st.begin()
+		beginAll()
 		added, removed, lres, lmsg := r.linkDiff(nm, o2)
-		sev = r.st.end()
+		sev = endAll()
 		_, ev.LLoads = distinctLoads(sev)
 		ev.LRes = lres
 		if lmsg != "" {
